@@ -13,6 +13,9 @@ TRUSTED = [
     "hand model Model/Harvest.v (sampler part): the table as a list of rows, memory + file, synced appends, new "
     "sessions, a second long-lived sampler appending to the same file; C15_rows_correct re-uses the DataFrame row "
     "theorem of C03 over the data flow regenerated from combo_runner.py (GenRunner)",
+    "translator gen_harvest.py: stage order of Sampler.add_df (load, concat [held; new], store), where save_full_df "
+    "updates memory relative to the atomic write; bridged in Bridge/BridgeHarvest.v; the correspondence interprets "
+    "the REGENERATED flow (Model/HarvestFlow.v)",
     "the random draws (numpy.random.choice / user generators) are INPUTS of the model: the harness records the rows a "
     "run produced and checks them against the allowed choices and the function",
     "pandas concat / to_pickle / read_pickle / to_csv / read_csv are library behaviour, validated by the correspondence",
@@ -121,17 +124,18 @@ def run_history(c, tmp, idx):
                 continue
         obs.append([canon_df(ss[0]._full_df), after])
     shutil.rmtree(d, ignore_errors=True)
-    return {"engine": engine, "const": use_const, "steps": steps}, "run_sampler [" + "; ".join(model_ops) + "]", obs
+    return {"engine": engine, "const": use_const, "steps": steps}, "run_sampler_flow gen_sadd_flow gen_ssave_flow [" + "; ".join(model_ops) + "]", obs
 
 
 def run(tier, seed):
     c = core.Check("C15", tier, seed)
     gen_st = core.regen()
     b = core.build(PROP_FILE)
-    c.cov["translator"] = {k: v for k, v in gen_st.items() if k in ("GenRunner",)}
+    c.cov["translator"] = {k: v for k, v in gen_st.items() if k in ("GenRunner", "GenHarvest")}
     c.cov["build"] = {"ok": b["ok"], "failed_file": b["failed_file"], "wall_s": round(b.get("wall_s", 0), 1)}
-    if "GenRunner" in gen_st and not gen_st["GenRunner"]["ok"]:
-        c.obligation_broken("translator GenRunner", gen_st["GenRunner"]["detail"])
+    for u in ("GenRunner", "GenHarvest"):
+        if u in gen_st and not gen_st[u]["ok"]:
+            c.obligation_broken(f"translator {u}", gen_st[u]["detail"])
     if not b["ok"]:
         c.obligation_broken(f"Coq build of {b['failed_file']}", b["log_tail"][-1200:])
     n = 80 if tier == "quick" else 700
@@ -149,7 +153,7 @@ def run(tier, seed):
             c.count("engine", rep["engine"]); c.count("len", len(rep["steps"]))
             pairs.append((model, obs))
             metas.append(rep)
-        bad, _ = core.safe_run_cases(c, "Prelude Grid Names Harvest HarvestInst", pairs, chunk=60)
+        bad, _ = core.safe_run_cases(c, "Prelude Grid Names Harvest HarvestFlow HarvestInst GenHarvest", pairs, chunk=60)
         for i in bad:
             c.obligation_broken("correspondence Model/Harvest.v (sampler) vs Sampler",
                                 {"case": metas[i], "model_expr": pairs[i][0][:2000], "observed": pairs[i][1]})
